@@ -73,17 +73,29 @@ pub struct Resolver {
     pub decls: Vec<(String, bool)>,
     /// for every use (in textual order): the declaration it is bound to
     pub uses: Vec<(String, VarRef)>,
+    /// declarations and uses in traversal order (the same order `transform::map_names` visits them)
+    pub events: Vec<NameEvent>,
+    /// some use resolved to an outer declaration although a later declaration of the same name exists (closed scope or other context)
+    pub outer_after_inner: bool,
+}
+
+#[derive(Clone, Debug)]
+pub struct NameEvent {
+    pub name: String,
+    pub decl: usize,
+    pub is_decl: bool,
 }
 
 impl Resolver {
     pub fn new() -> Resolver {
-        Resolver { ctxs: vec![Ctx { scopes: vec![vec![]], loops: 0 }], next_decl: 0, next_func: 0, decls: vec![], uses: vec![] }
+        Resolver { ctxs: vec![Ctx { scopes: vec![vec![]], loops: 0 }], next_decl: 0, next_func: 0, decls: vec![], uses: vec![], events: vec![], outer_after_inner: false }
     }
     fn define(&mut self, name: &str) -> VarRef {
         let d = self.next_decl;
         self.next_decl += 1;
         let global = self.ctxs.len() == 1;
         self.decls.push((name.to_string(), global));
+        self.events.push(NameEvent { name: name.to_string(), decl: d, is_decl: true });
         self.ctxs.last_mut().unwrap().scopes.last_mut().unwrap().push((name.to_string(), d));
         VarRef { global, decl: d }
     }
@@ -101,16 +113,24 @@ impl Resolver {
         if let Some(d) = Self::lookup_in(&self.ctxs[n - 1], name) {
             let r = VarRef { global: n == 1, decl: d };
             self.uses.push((name.to_string(), r));
+            self.note_use(name, d);
             return Ok(r);
         }
         if n > 1 {
             if let Some(d) = Self::lookup_in(&self.ctxs[0], name) {
                 let r = VarRef { global: true, decl: d };
                 self.uses.push((name.to_string(), r));
+                self.note_use(name, d);
                 return Ok(r);
             }
         }
         Err((ErrKind::Reference, format!("{name} is not declared")))
+    }
+    fn note_use(&mut self, name: &str, d: usize) {
+        self.events.push(NameEvent { name: name.to_string(), decl: d, is_decl: false });
+        if self.decls.iter().enumerate().any(|(i, (n, _))| i > d && n == name) {
+            self.outer_after_inner = true;
+        }
     }
     pub fn block(&mut self, b: &BlockStmt, top: bool) -> Result<Vec<RStmt>, StaticError> {
         if b.is_empty() {
@@ -1043,6 +1063,7 @@ pub fn run_reference(prog: &BlockStmt, budget: u64) -> RefObs {
         }
     };
     let mut it = Interp::new(budget);
+    it.stats.shadow_outer_after_inner = rs.outer_after_inner;
     let mut last = V::Null;
     let mut last_is_expr = false;
     let mut flow: Option<Flow> = None;
